@@ -24,7 +24,7 @@
    Not modelled: the individual loads inside "reserve" (the producers' retry loop on a failed CAS
    and their spinning while another producer's growth step is in progress are atomic here; the
    engine's parked-resize windows exercise them). *)
-From Otter Require Import Base Sketch Mpsc MpscFacts MpscFifo MpscConc.
+From Otter Require Import Base Sketch Mpsc MpscFacts MpscFifo MpscConc MpscIndex MpscIndexProofs.
 
 Theorem C16_seq_fifo : forall initial maximum ops,
   2 <= initial <= 2 ^ 31 -> 4 <= maximum <= 2 ^ 31 -> roundup32 initial <= roundup32 maximum ->
@@ -125,3 +125,35 @@ Example C16_growth_instance :
    let '(q, r4) := try_pop q in
    (r1, r2, r3, r4, mpsc_size q)) = (PopElem 1, PopElem 2, PopElem 3, PopElem 4, 6).
 Proof. vm_compute. repeat split. Qed.
+
+(* ---- the index protocol of TryPush at the granularity of its individual loads and CASes (MpscIndex.v):
+   the producer limit, the producer index, the mask and the consumer index are read one after the other and
+   may all be stale when used.  For any number of producers, every schedule and any consumer progress:
+   the queue never holds more than its capacity, and whenever the CAS on the producer index succeeds the
+   mask read earlier is still the current buffer's and the slot lies in that buffer's free window — also
+   when a resize happened since the limit was read (buffers only grow).  This is what justifies the atomic
+   reserve step of C16_concurrent_fifo. ---- *)
+Theorem C16_index_protocol_safe : forall b0 mx n es, 1 <= b0 <= mx ->
+  let s := irun (iinit b0 mx n) es in
+  0 <= ip s - ic s <= imax s /\
+  forall i t, nth_error (iths s) i = Some t -> ipc_ t = P4 -> irz s = false -> ip s = l_p t ->
+    l_gen t = igen s /\ l_bcap t = ibcap s /\
+    Z.max (ic s) (ibase s) <= l_p t < Z.max (ic s) (ibase s) + ibcap s /\ l_p t - ic s < imax s.
+Proof. exact mpsc_index_safe. Qed.
+Print Assumptions C16_index_protocol_safe.
+
+Theorem C16_producer_limit_never_decreases : forall s i, IInv s -> ilim s <= ilim (istep s i).
+Proof. exact limit_never_decreases. Qed.
+Print Assumptions C16_producer_limit_never_decreases.
+
+(* producers 0 and 1 claim slots 0 and 1 of the first buffer (capacity 2); producer 3 reads the limit (2)
+   early; producer 2 finds the buffer full and grows the queue (new buffer from index 2, capacity 4, limit
+   6); the consumer takes two; producer 3 goes on with its stale limit, takes the slow path, loses the CAS
+   on the limit (it has moved), starts over and claims slot 3 of the new buffer *)
+Example C16_index_protocol_instance :
+  let rp := fun (i n : nat) => repeat (EvP i) n in
+  let es := rp 0%nat 5%nat ++ rp 1%nat 5%nat ++ [EvP 3%nat] ++ rp 2%nat 8%nat ++ [EvC; EvC] ++ rp 3%nat 12%nat in
+  let fin := irun (iinit 2 8 4) es in
+  (ip fin, ic fin, ilim fin, ibase fin, ibcap fin, igen fin, irz fin) = (4, 2, 6, 2, 4, 1%nat, false) /\
+  map ipc_ (iths fin) = [IClaimed 0 0; IClaimed 1 0; IGrown 2 1; IClaimed 3 1].
+Proof. vm_compute. split; reflexivity. Qed.
